@@ -32,7 +32,7 @@ CHECKS = {
         "design_ref": "DESIGN.md §7 C03",
     },
     "C04": {
-        "scenarios": [{"name": "ledger"}],
+        "scenarios": [{"name": "ledger"}, {"name": "bank"}],
         "accept": ["history-replay:", "nonneg:"],
         "technique": "Lean: AddToBalance/SubFromBalance change the column sum by exactly their amount; a transfer changes its asset's supply by minus what went to the burn address and nothing else. Tie: era-crossing lock-step chain; monitor recomputes every balance from the recorded history + scheduled adjustments after every block",
         "assumptions": [ORACLES, "block-level sum of all event kinds is checked by the monitor, proved only per event kind (transfer, rejected batch)"],
@@ -102,7 +102,7 @@ CHECKS = {
         "design_ref": "DESIGN.md §7 C13",
     },
     "C14": {
-        "scenarios": [{"name": "payouts"}, {"name": "ledger"}],
+        "scenarios": [{"name": "payouts"}, {"name": "ledger"}, {"name": "bank"}],
         "accept": ["staking:", "payouts:"],
         "technique": "Lean: total paid = min(total stake, cap), exact when over, full when under, proportional shares, distinct payout keys, stake uses min(current, past) and ignores PEG. Tie: ConversionSupplySet vs the model on random sets with ties; lock-step chain over two snapshot heights with the staking specification recomputed from the snapshot tables",
         "assumptions": ["every per-asset valuation fits in int64 (otherwise the block fails: C08)"],
@@ -116,14 +116,14 @@ CHECKS = {
         "design_ref": "DESIGN.md §7 C15",
     },
     "C16": {
-        "scenarios": [{"name": "payouts"}, {"name": "ledger"}],
-        "accept": ["payouts:", "refund:", "bank:"],
+        "scenarios": [{"name": "payouts"}, {"name": "ledger"}, {"name": "bank"}],
+        "accept": ["payouts:", "refund:", "bank:", "history-replay:balances-differ:bank-"],
         "technique": "Lean: bank limit, exact when over, full if fits, proportional shares, same requesters, refund value inequality. Tie: ConversionSupplySet / Refund vs the model; bank-era lock-step chains with bank rows checked",
         "assumptions": ["request keys are distinct (Go map keys)", "bank is a uint64"],
         "design_ref": "DESIGN.md §7 C16",
     },
     "C17": {
-        "scenarios": [{"name": "ledger"}],
+        "scenarios": [{"name": "ledger"}, {"name": "bank"}],
         "accept": ["history-replay:", "paging:", "holding:"],
         "technique": "Lean: pages at offsets 0, 50, ... partition any ordered result; arrival records pending; rejected batch has no effect; status update hits exactly the rows of the hash; kernel-checked witness that an unconvertible amount stays pending. Tie: lock-step chain; monitor replays the whole history (+ scheduled adjustments) to the balances after every block",
         "assumptions": [ORACLES, "API paging is modelled as LIMIT/OFFSET over a fixed ordered list"],
